@@ -80,6 +80,19 @@ Forget(s, d) ==
        THEN Ok([s EXCEPT !.chans = @ \ {c}, !.mark = m])
        ELSE Ok([s EXCEPT !.chans = (@ \ {c}) \cup {[c EXCEPT !.forget = TRUE]}, !.mark = m])
 
+\* check_onchain_tx followed by unchecked_sign_onchain_tx (what the protocol handler's sign-withdrawal and
+\* vlsd's direct recovery signer do) for a transaction with one wallet input, optionally the funding output
+\* of channel `fund`, and a wallet change output.  inp: "wpkh" / "tr" a wallet input of that kind;
+\* "badtr" a taproot input whose key index is wrong, "badpath" a derivation path of the wrong length -
+\* both pass the check (which does not see the input paths) and are refused by the signing step.
+\* Nothing of the abstract node state changes (the fee velocity is C12's subject; the frame and restart
+\* observations of ImplNode see the concrete state).
+Withdraw(s, inp, fund) ==
+  IF fund > 0 /\ (ChanOf(s, fund) = {} \/ \E c \in ChanOf(s, fund) : c.phase = "stub")
+  THEN Err(s)                             \* no keys for the output / an unknown p2wsh output
+  ELSE IF inp \in {"badtr", "badpath"} THEN Err(s)
+  ELSE Ok(s)
+
 Step(s, r, k) ==
   CASE r.op = "AddAllow"    -> AddAllow(s, r.l, k)
     [] r.op = "SetAllow"    -> SetAllow(s, r.l, k)
@@ -89,6 +102,7 @@ Step(s, r, k) ==
     [] r.op = "NewChannel"  -> NewChannel(s, r.d)
     [] r.op = "Setup"       -> Setup(s, r.d)
     [] r.op = "Forget"      -> Forget(s, r.d)
+    [] r.op = "Withdraw"    -> Withdraw(s, r.inp, r.fund)
     [] r.op = "Heartbeat"   -> Ok(s)          \* nothing expires / is buried with a fixed clock and chain
     [] r.op = "Restart"     -> Ok(s)
     [] OTHER                -> Err(s)
@@ -107,6 +121,8 @@ Requests ==
   \cup {[op |-> "NewChannel", d |-> d] : d \in 1..MaxD}
   \cup {[op |-> "Setup", d |-> d] : d \in 1..MaxD}
   \cup {[op |-> "Forget", d |-> d] : d \in 1..MaxD}
+  \cup {[op |-> "Withdraw", inp |-> i, fund |-> 0] : i \in {"wpkh", "tr", "badtr", "badpath"}}
+  \cup {[op |-> "Withdraw", inp |-> i, fund |-> d] : i \in {"wpkh", "badpath"}, d \in 1..MaxD}
   \cup {[op |-> "Heartbeat"], [op |-> "Restart"]}
 
 \* ghost for the id rule (C15b): once Forget(d) was answered for an existing channel,
